@@ -29,6 +29,10 @@ func init() {
 		Run: runC12,
 	})
 	addMutants("C12",
+		mutant{"recvfrom reports a shifted port", "socket.go",
+			"return n, netip.AddrPortFrom(netip.AddrFrom4(sa.Addr), uint16(sa.Port)), err", "return n, netip.AddrPortFrom(netip.AddrFrom4(sa.Addr), uint16(sa.Port>>8)), err", "C12-R1"},
+		mutant{"recvfrom reports the sender of an earlier datagram", "socket.go",
+			"\tn, s.readSockAddr, err = syscall.Recvfrom(s.fd, b, 0)", "\tvar from syscall.Sockaddr\n\tn, from, err = syscall.Recvfrom(s.fd, b, 0)\n\tif s.readSockAddr == nil {\n\t\ts.readSockAddr = from\n\t}", "C12-R1"},
 		mutant{"datagram read retried in a loop", "packet.go",
 			"\tvar addr syscall.Sockaddr\n\tn, addr, err = syscall.Recvfrom(c.slot.Fd, b, 0)\n", "\tvar addr syscall.Sockaddr\n\tfor i := 0; i < 2; i++ {\n\t\tn, addr, err = syscall.Recvfrom(c.slot.Fd, b, 0)\n\t\tif err == nil {\n\t\t\tbreak\n\t\t}\n\t}\n", "C12-R1"},
 		mutant{"sender address dropped", "socket.go",
@@ -154,6 +158,58 @@ func runC12(c *Ctx) {
 							portOK = false
 						}
 					})
+					// ... exactly: every AddrPortFrom reached (also in a conversion helper) takes the Port field as it is
+					var visit func(f *ssa.Function, depth int)
+					visit = func(f *ssa.Function, depth int) {
+						eachInstr(f, func(in ssa.Instruction) {
+							cc, ok := in.(*ssa.Call)
+							if !ok || cc.Call.StaticCallee() == nil {
+								return
+							}
+							if cc.Call.StaticCallee().Name() == "AddrPortFrom" && len(cc.Call.Args) == 2 {
+								u, isLoad := stripConv(cc.Call.Args[1]).(*ssa.UnOp)
+								exact := false
+								if isLoad && u.Op == token.MUL {
+									if fa, ok := u.X.(*ssa.FieldAddr); ok {
+										if fv, _ := fieldAddrOf(fa); fv != nil && fv.Name() == "Port" {
+											exact = true
+										}
+									}
+								}
+								if !exact {
+									portOK = false
+								}
+							}
+							if depth < 2 && isHelperOf(fn, cc.Call.StaticCallee()) {
+								visit(cc.Call.StaticCallee(), depth+1)
+							}
+						})
+					}
+					visit(fn, 0)
+					// the sockaddr converted is the one this recvfrom returned: a sockaddr kept in a field is (re)stored from the
+					// call's result on every path that reads it
+					if ares != nil {
+						eachInstr(fn, func(in ssa.Instruction) {
+							u, ok := in.(*ssa.UnOp)
+							if !ok || u.Op != token.MUL {
+								return
+							}
+							fa, ok := u.X.(*ssa.FieldAddr)
+							if !ok || !types.Identical(u.Type(), ares.Type()) {
+								return
+							}
+							fv, _ := fieldAddrOf(fa)
+							stored := false
+							for _, a := range storesTo(fn, fv) {
+								if stripConv(a.Val) == ares && dominatesInstr(a.Instr, u) {
+									stored = true
+								}
+							}
+							if !stored {
+								portOK = false
+							}
+						})
+					}
 				}
 				c.check(okN && okA && portOK, fn, "result", call.Pos(), "length and sender come from the one recvfrom", spec.name+" does not report the length and the sender (IP and port) of the datagram the one recvfrom returned")
 			} else {
